@@ -22,7 +22,7 @@ Proof. exact resync_normal_form_run. Qed.
 (* History independence.  event_ok: no Service with a repeated address; no
    configuration whose layer-2 advertisements select this node only through
    interfaces it does not have (F9).  stale_after = false: no first event of a
-   node (which requests no re-sync, F19) happened with Services present
+   node (which requests no re-sync, F25) happened with Services present
    without a full re-sync afterwards. *)
 Theorem C09_history_independent_partial : forall ev spk h,
   forallb (event_ok ev) h = true ->
@@ -41,14 +41,14 @@ Proof.
   destruct f9_refuted as [H1 [H2 [_ [_ H3]]]]. auto.
 Qed.
 
-(* F19: without the hypothesis on first node events the statement is false *)
+(* F25: without the hypothesis on first node events the statement is false *)
 Theorem C09_history_independent_refuted_first_node_event :
   exists ev spk h,
     forallb (event_ok ev) h = true /\
     ~ announced_equiv (snd (srun ev spk h)) (fresh ev (snd (srun ev spk h)) (fst (srun ev spk h))).
 Proof.
-  exists env_rev, None, f19_history.
-  destruct f19_refuted as [H1 [_ [_ [_ H3]]]]. auto.
+  exists env_rev, None, f25_history.
+  destruct f25_refuted as [H1 [_ [_ [_ H3]]]]. auto.
 Qed.
 
 (* the statement's "in particular": once processed, nothing remains announced for a
@@ -73,9 +73,9 @@ Theorem C09_setconfig_refusal : forall ev c st,
   snd (set_config ev c st) = false -> fst (set_config ev c st) = st.
 Proof. exact setconfig_refusal. Qed.
 
-(* non-vacuity: the F19 history converges once the missing re-sync is added *)
+(* non-vacuity: the F25 history converges once the missing re-sync is added *)
 Example C09_nonvacuous :
-  s_l2 (snd (srun env_rev None (f19_history ++ [EResync]))) 0 = None /\
-  stale_after env_rev ([], sinit None) false (f19_history ++ [EResync]) = false /\
+  s_l2 (snd (srun env_rev None (f25_history ++ [EResync]))) 0 = None /\
+  stale_after env_rev ([], sinit None) false (f25_history ++ [EResync]) = false /\
   s_l2 (snd (srun env_id (Some [0]) (firstn 3 f9_history))) 0 <> None.
 Proof. vm_compute. repeat split; discriminate. Qed.
